@@ -141,7 +141,20 @@ func (n *namer) expr(e ast.Expr) string {
 		}
 		return n.expr(x.Fun) + "(" + strings.Join(as, ",") + ell + ")"
 	case *ast.BinaryExpr:
-		return "(" + n.expr(x.X) + x.Op.String() + n.expr(x.Y) + ")"
+		// comparisons are printed in one canonical direction (`a >= b` as `b <= a`, `a > b` as `b < a`; the operands of
+		// `==` / `!=` in text order): turning a comparison round is not a change of the condition
+		l, r, op := n.expr(x.X), n.expr(x.Y), x.Op
+		switch op {
+		case token.GEQ:
+			l, r, op = r, l, token.LEQ
+		case token.GTR:
+			l, r, op = r, l, token.LSS
+		case token.EQL, token.NEQ:
+			if r < l {
+				l, r = r, l
+			}
+		}
+		return "(" + l + op.String() + r + ")"
 	case *ast.UnaryExpr:
 		return x.Op.String() + n.expr(x.X)
 	case *ast.ParenExpr:
